@@ -122,6 +122,17 @@ def run_case(case, rec):
                 rec.violation('expanded-lexicons', 'default-mode Wordnet does not expand over all lexicons')
             compare(rec, m, None, default=True, label='C12 default mode', quirks=QUIRKS)
             rec.event('expand.default-mode')
+            # ... unless expansion is switched off explicitly
+            from vf.observe import observe
+            from vf.diff import diff as _diff
+            w0 = wn.Wordnet(expand='')
+            if w0.expanded_lexicons():
+                rec.violation('expanded-lexicons', f"Wordnet(expand='') has expand lexicons {[x.specifier() for x in w0.expanded_lexicons()]}")
+            allspecs = sorted(m.lex, key=lambda s_: m.lex[s_].order)
+            d = _diff(View(m, allspecs, True, []).observe(), observe(w0, rec))
+            rec.event('expand.default-mode-off')
+            if d:
+                rec.violation('observation:' + d[0].split('::')[0][:40], "Wordnet(expand='') (default mode, expansion off): " + fmt(d))
             rec.state(case['seed'])
     finally:
         env.rmtree(work)
